@@ -141,6 +141,7 @@ package interp
 //@   opt opaque-calls = *
 //@   opt opaque-havoc = none
 //@   requires [assume] n != nil && len(n.child) == 2 && n.child[0] != nil && n.child[1] != nil && n.child[0] != n.child[1]
+//@   modifies n.child[0].rval, n.child[0].typ, n.child[1].rval, n.child[1].typ
 //@   let c0: n.child[0]
 //@   let c1: n.child[1]
 //@   ensures comparison-constant-representable: err == nil && (n.action == aEqual || n.action == aNotEqual || n.action == aLower || n.action == aLowerEqual || n.action == aGreater || n.action == aGreaterEqual) && old(c1.typ != nil && c1.typ.untyped && c1.typ.cat != nilT && isC(c1.rval)) && old(c0.typ != nil && !c0.typ.untyped && basicTarget(c0.typ)) ==> representableConst(old(cOf(c1.rval)), old(c0.typ).TypeOf())
